@@ -209,6 +209,18 @@ def main():
         out_lines.append('VIOLATION property=%s replay=%s no-failing-input-found' % (prop, path))
         nviol = 1
 
+    if tier == 'thorough' and proof_ok:
+        # independent re-check of the compiled library of this property and everything it depends on
+        r = sh('timeout 3000 coqchk -silent -o -Q . Frugal Frugal.props.%s 2>&1' % prop, cwd=COQ, check=False, timeout=3100)
+        txt = ' '.join(r.stdout.split())
+        ps['coqchk'] = txt[-600:]
+        if r.returncode != 0 or 'Axioms: <none>' not in txt:
+            proof_ok = False
+            ps['failed_files'].append('coqchk: ' + txt[-300:])
+            if not out_lines:
+                path = write_replay(prop, tier, seed, None, result, ps, kind='proof-broken')
+                out_lines.append('VIOLATION property=%s replay=%s no-failing-input-found' % (prop, path))
+                nviol = 1
     write_evidence(prop, tier, seed, result, ps, proof_ok, nviol, time.time() - t0)
     for l in known_lines:
         print(l)
@@ -384,6 +396,7 @@ def write_evidence(prop, tier, seed, result, ps, proof_ok, nviol, wall):
         'theorems': ps['obligations'],
         'print_assumptions': ps['assumptions'],
         'failed_files': ps['failed_files'],
+        'coqchk': ps.get('coqchk', 'not run in the quick tier'),
         'evaluations': result['evaluations'],
         'distinct_nontrivial': result['distinct'],
         'rule': result.get('rule', 'cases generated from one splitmix64 state (VERIF_SEED) over the run\'s type universe '
